@@ -12,7 +12,7 @@ MANIFEST = {
  'technique': 'Lean 4 proof (induction over strings) + table extraction + differential correspondence',
  'design_ref': 'DESIGN.md §6 C05',
 }
-THEOREMS = ['C05.unescape_escape', 'C05.parse_total', 'C05.format_cached',
+THEOREMS = ['C05.unescape_escape', 'C05.parse_format', 'C05.parse_total', 'C05.format_cached', 'C05.tagEscape_table_sep',
             'C05.tagEscape_table_ok']
 TRUSTED = ['Lean 4.33.0 kernel; axioms ⊆ {propext, Classical.choice, Quot.sound}',
            'harness/extract.py (SERVER_TAG_ESCAPE table → Gen/IrcMsgs.lean)',
